@@ -205,8 +205,11 @@ class H:
 
 
 class Interp:
-    def __init__(self, view: H, rec, fuel=2000):
+    def __init__(self, view: H, rec, fuel=2000, strict_index=False):
         self.v, self.rec, self.fuel = view, rec, fuel
+        # strict_index: array ops follow the HUGR array extensions on indices outside [0, n) (get -> None, set -> error variant,
+        # borrow / return -> panic); otherwise such a path is outside the claim (OutsideIndex)
+        self.strict_index = strict_index
         self.targs: list = []        # type arguments of the function instance being executed (for `load_nat` of a const parameter)
 
     def type_arg(self, a):
@@ -390,16 +393,22 @@ class Interp:
         if short == "get":
             arr, i = a
             if not (0 <= i < len(arr.v)):
+                if self.strict_index:
+                    return [Sum(0, []), arr]
                 raise OutsideIndex()
             return [Sum(1, [arr.v[i]]), arr]
         if short == "set":
             arr, i, x = a
             if not (0 <= i < len(arr.v)):
+                if self.strict_index:
+                    return [Sum(0, [x, arr])]
                 raise OutsideIndex()
             return [Sum(1, [arr.v[i], Arr(arr.v[:i] + (x,) + arr.v[i + 1:])])]
         if short == "borrow":
             arr, i = a
             if not (0 <= i < len(arr.v)):
+                if self.strict_index:
+                    self.rec.panic("borrow: index out of bounds")
                 raise OutsideIndex()
             if arr.v[i] is None:
                 self.rec.panic("element already borrowed")
@@ -407,6 +416,8 @@ class Interp:
         if short == "return":
             arr, i, x = a
             if not (0 <= i < len(arr.v)):
+                if self.strict_index:
+                    self.rec.panic("return: index out of bounds")
                 raise OutsideIndex()
             if arr.v[i] is not None:
                 self.rec.panic("element was not borrowed")
@@ -420,7 +431,10 @@ class Interp:
         if short in ("to_array", "from_array", "convert_to_std", "convert_from_std"):
             return [a[0]]
         if short == "new_all_borrowed":
-            raise Unsupported("new_all_borrowed")
+            n = next((self.type_arg(t) for t in getattr(op, "args", []) if type(t).__name__ in ("BoundedNatArg", "VariableArg")), None)
+            if n is None:
+                raise Unsupported("new_all_borrowed without a size")
+            return [Arr([None] * n)]
         if short == "pop_left":
             arr = a[0]
             return [Sum(1, [arr.v[0], Arr(arr.v[1:])])] if arr.v else [Sum(0, [])]
@@ -430,8 +444,8 @@ class Interp:
         raise Unsupported(f"array op {short}")
 
 
-def run(view: H, fnode, args, rec, fuel=2000):
-    out = Interp(view, rec, fuel).run_region(fnode, list(args))
+def run(view: H, fnode, args, rec, fuel=2000, strict_index=False):
+    out = Interp(view, rec, fuel, strict_index).run_region(fnode, list(args))
     if len(out) == 0:
         return None
     if len(out) == 1:
